@@ -9,6 +9,7 @@ import (
 	"time"
 
 	predis "github.com/samaritan-proxy/samaritan/pb/config/protocol/redis"
+	sredis "github.com/samaritan-proxy/samaritan/proc/redis"
 
 	"verif/internal/ev"
 	"verif/internal/fakecluster"
@@ -19,6 +20,86 @@ import (
 
 func init() {
 	register(&Check{ID: "C02", Level: "fault_enumeration", Drive: c02})
+	apiParts["C02/children"] = c02Children
+}
+
+// c02Children completes the per-key children of real multi-key requests from goroutines released at the same instant:
+// the parent must be completed exactly once (a lost completion leaves the client waiting forever, a double one crashes).
+func c02Children(r *ev.Run) {
+	rnd := rand.New(rand.NewSource(r.Seed))
+	rounds := 600000
+	if r.Tier == "thorough" {
+		rounds = 1500000
+	}
+	kinds := []string{"MGET", "MSET", "DEL", "exists", "Touch", "UNLINK"}
+	for i := 0; i < rounds; i++ {
+		kind := kinds[i%len(kinds)]
+		n := 2 + rnd.Intn(7)
+		args := [][]byte{[]byte(kind)}
+		for k := 0; k < n; k++ {
+			args = append(args, []byte(fmt.Sprintf("k%d", k)))
+			if kind == "MSET" {
+				args = append(args, []byte("v"))
+			}
+		}
+		q, err := sredis.VerifNewMultiKeyRequest(args)
+		if err != nil || q.NumChildren() != n {
+			r.Violation("C02:multi-key-split", "a multi-key request was not split into one child per key", map[string]interface{}{"kind": kind, "keys": n})
+			return
+		}
+		if i%2000 == 0 {
+			r.Checkpoint(map[string]interface{}{"phase": "children", "kind": kind, "children": n, "round": i})
+		}
+		var gate int32
+		var wg sync.WaitGroup
+		for c := 0; c < n; c++ {
+			wg.Add(1)
+			go func(c int) {
+				defer wg.Done()
+				for atomic.LoadInt32(&gate) == 0 {
+				}
+				var v *sredis.RespValue
+				switch strings.ToLower(kind) {
+				case "mget":
+					v = &sredis.RespValue{Type: sredis.BulkString, Text: []byte(fmt.Sprintf("v%d", c))}
+				case "mset":
+					v = &sredis.RespValue{Type: sredis.SimpleString, Text: []byte("OK")}
+				default:
+					v = &sredis.RespValue{Type: sredis.Integer, Int: int64(c + 1)}
+				}
+				q.CompleteChild(c, v)
+			}(c)
+		}
+		atomic.StoreInt32(&gate, 1)
+		wg.Wait()
+		resp := q.Response()
+		if resp == nil {
+			r.Violation("C02:lost:child-completion:"+strings.ToLower(kind), "all children of a multi-key request were completed (concurrently) but the request itself was never completed",
+				map[string]interface{}{"kind": kind, "children": n, "round": i})
+			return
+		}
+		okv := true
+		switch strings.ToLower(kind) {
+		case "mget":
+			okv = resp.Type == sredis.Array && len(resp.Array) == n
+			for c := 0; okv && c < n; c++ {
+				okv = string(resp.Array[c].Text) == fmt.Sprintf("v%d", c)
+			}
+		case "mset":
+			okv = resp.Type == sredis.SimpleString && string(resp.Text) == "OK"
+		default:
+			okv = resp.Type == sredis.Integer && resp.Int == int64(n*(n+1)/2)
+		}
+		if !okv {
+			r.Violation("C02:multi-key-result:"+strings.ToLower(kind), "children completed concurrently were combined into a wrong reply", map[string]interface{}{"kind": kind, "children": n, "reply": resp.String()})
+			return
+		}
+	}
+	r.Cases(rounds, "children/concurrent-completion")
+	for _, k := range kinds {
+		r.Distinct("children/" + strings.ToLower(k))
+	}
+	r.Count("concurrent_child_completion_rounds", int64(rounds))
 }
 
 type c02Script struct {
@@ -359,6 +440,8 @@ func c02(r *ev.Run) {
 	c02FullQueue(r, e)
 	e.stop()
 	c02FilteredAfterPending(r)
+	c02MultiKeyStorm(r)
+	runAPIPart(r, "children", false, nil, 10*time.Minute)
 	c02Stress(r)
 	r.Require("scripts_that_reached_their_pause_point", 30)
 	r.Require("outcome:answered", 60)
@@ -691,4 +774,138 @@ func c02FilteredAfterPending(r *ev.Run) {
 		conn.Close()
 		r.Case("script/filtered-after-pending/" + banned)
 	}
+}
+
+// c02MultiKeyStorm: multi-key requests whose children are completed by different backend reader goroutines at the same
+// moment (keys spread over 8 nodes, no delays), with connection resets mixed in so that drains complete children too.
+// Every request must be answered (a lost child completion leaves the parent unanswered forever).
+func c02MultiKeyStorm(r *ev.Run) {
+	s, err := startSUT(r, false, 600000, 20)
+	if err != nil {
+		r.Internal("start sut: %v", err)
+		return
+	}
+	defer s.Close()
+	cl, err := fakecluster.New(8, 0)
+	if err != nil {
+		r.Internal("fakecluster: %v", err)
+		return
+	}
+	defer cl.Close()
+	cl.AssignAll(func(sl int) *fakecluster.Node { return cl.Nodes[sl%8] })
+	cl.LogArgs = false
+	svc, err := startRedisSvc(s, cl, cl.Addrs(), RedisOpts{ConnTimeout: 500 * time.Millisecond})
+	if err != nil || !svc.WaitRouting(1, 10*time.Second) {
+		r.Internal("service did not start: %v", err)
+		return
+	}
+	nconn, pipes := 16, 60
+	if r.Tier == "thorough" {
+		pipes = 700
+	}
+	stop := make(chan struct{})
+	var fwg sync.WaitGroup
+	fwg.Add(1)
+	go func() {
+		defer fwg.Done()
+		frnd := rand.New(rand.NewSource(r.Seed + 404))
+		for {
+			select {
+			case <-stop:
+				return
+			case <-time.After(time.Duration(20+frnd.Intn(60)) * time.Millisecond):
+			}
+			cl.Nodes[frnd.Intn(8)].KillConns(frnd.Intn(2) == 0)
+			r.Count("storm_connection_resets", 1)
+		}
+	}()
+	var sent, got int64
+	var wg sync.WaitGroup
+	var smu sync.Mutex
+	var stuck []*rclient.Conn
+	for c := 0; c < nconn; c++ {
+		wg.Add(1)
+		go func(c int) {
+			defer wg.Done()
+			crnd := rand.New(rand.NewSource(r.Seed*31 + int64(c)))
+			conn, err := svc.Dial()
+			if err != nil {
+				return
+			}
+			for p := 0; p < pipes; p++ {
+				depth := 20 + crnd.Intn(40)
+				var buf []byte
+				for i := 0; i < depth; i++ {
+					name := []string{"MGET", "MSET", "DEL", "EXISTS"}[crnd.Intn(4)]
+					args := []string{name}
+					for k := 0; k < 8; k++ {
+						args = append(args, fmt.Sprintf("storm%d.%d", c, crnd.Intn(4000)))
+						if name == "MSET" {
+							args = append(args, "v")
+						}
+					}
+					buf = append(buf, resp.CmdS(args...)...)
+				}
+				if _, err := conn.C.Write(buf); err != nil {
+					conn.Close()
+					if conn, err = svc.Dial(); err != nil {
+						return
+					}
+					continue
+				}
+				atomic.AddInt64(&sent, int64(depth))
+				for i := 0; i < depth; i++ {
+					if _, err := conn.Read(6 * time.Second); err != nil {
+						if rclient.IsTimeout(err) {
+							smu.Lock()
+							stuck = append(stuck, conn)
+							smu.Unlock()
+						} else {
+							conn.Close()
+						}
+						if conn, err = svc.Dial(); err != nil {
+							return
+						}
+						break
+					}
+					atomic.AddInt64(&got, 1)
+				}
+			}
+			conn.Close()
+		}(c)
+	}
+	wg.Wait()
+	close(stop)
+	fwg.Wait()
+	r.Count("storm_multikey_requests_sent", atomic.LoadInt64(&sent))
+	r.Count("storm_multikey_replies", atomic.LoadInt64(&got))
+	if sutDied(r, s, "multi-key storm") {
+		return
+	}
+	if len(stuck) > 0 {
+		env := &c02Env{r: r, s: s, cl: cl, svc: svc, ka: keysFor(cl, cl.Nodes[0], 2, "cn0"), kb: keysFor(cl, cl.Nodes[1], 2, "cn1")}
+		if env.canaries() {
+			lost := 0
+			for _, c := range stuck {
+				if _, err := c.Read(2 * time.Second); err != nil && rclient.IsTimeout(err) {
+					lost++
+				}
+			}
+			if lost > 0 {
+				if st, stacks := env.stuckInWait(); st {
+					r.Violation("C02:lost:multi-key-storm", fmt.Sprintf("%d connections have a multi-key request that was never answered although all its children had somewhere to complete", lost),
+						map[string]interface{}{"requests_sent": atomic.LoadInt64(&sent), "stuck_goroutines": stacks})
+				} else {
+					r.Inconclusive("storm-unanswered-but-not-stuck")
+				}
+			}
+		} else {
+			r.Inconclusive("storm-canaries-failed")
+		}
+		for _, c := range stuck {
+			c.Close()
+		}
+	}
+	r.Cases(int(atomic.LoadInt64(&sent)/100), "stress/multi-key-storm")
+	r.Require("storm_multikey_replies", 10000)
 }
